@@ -380,13 +380,15 @@ def run(tier, seed, replay=None):
                     grid = np.hstack([grid, np.zeros((len(grid), 1))])
                 sc = max(1.0, np.abs(grid).max())
                 for v in verts:
-                    if np.min(np.linalg.norm(grid - v, axis=1)) > atol * sc * (1 if not binary else 10):
+                    # ASCII: four fixed decimals, an ABSOLUTE error of at most 5e-5 per coordinate whatever the magnitude;
+                    # binary: single precision, relative to the magnitude
+                    if np.min(np.linalg.norm(grid - v, axis=1)) > (atol * sc * 10 if binary else 1e-4):
                         fail('stl', args, 'a vertex in the file is not a point of the tessellated surface')
                         break
                 want_f = 2 * (len(uu) - 1) * (len(vv) - 1)
                 if nf != want_f:
                     fail('stl', args, '%d facets in the file, the tessellation has %d' % (nf, want_f))
-                stl_l1.append((args, O.snapshot(o), n, verts, nf, atol * (1 if not binary else 10)))
+                stl_l1.append((args, O.snapshot(o), n, verts, nf, (atol * 10 if binary else None)))
             except Exception as e:  # noqa
                 fail('stl', args, 'raised %s' % type(e).__name__)
 
@@ -518,7 +520,7 @@ def run(tier, seed, replay=None):
         mverts = np.asarray([[float(x) for x in p_] for t_ in tris for p_ in t_], dtype=float).reshape(-1, 3)
         if mcount != nf or len(tris) != nf:
             corr_bad += {'what': 'L1: %d facets in the file, the model writes %d (declares %d)' % (nf, len(tris), mcount), 'op': 'stl', 'args': a_}
-        elif mverts.shape != np.asarray(verts).shape or np.max(np.abs(mverts - verts)) > at_ * max(1.0, np.abs(mverts).max()):
+        elif mverts.shape != np.asarray(verts).shape or np.max(np.abs(mverts - verts)) > (6e-5 if at_ is None else at_ * max(1.0, np.abs(mverts).max())):
             corr_bad += {'what': 'L1: the facets in the file differ from the model tessellation (order or values)', 'op': 'stl', 'args': a_}
     dist['op']['L1 comparisons'] = nl1
     rc = V.finish(l0, corr_bad)
